@@ -398,3 +398,42 @@ def r_leafguard(prog, tier):
                 obs.append(Ob('R-LEAFGUARD', f.fq, 'early `%s` happens only for a node without children' % unparse(r.ast)[:50],
                               ok, why, construct='leaf:' + unparse(r.ast)[:50], line=r.lineno))
     return obs, {'guarded_early_returns': n}
+
+
+# ------------------------------------------------------------------------------------ R-NODELINE
+
+def r_nodeline(prog, tier):
+    """The export reader takes a line for a constituent exactly when its first field is `#` followed by three digits
+    (four characters in all): tokens like `#1` or `#12345` are words."""
+    obs = []
+    f = prog.func('treeinput', 'export')
+    cfg = f.cfg
+    found = 0
+    for n in cfg.nodes:
+        if n.kind != 'test':
+            continue
+        atoms = [norm_test(e, p) for (e, p) in split_assumes(n.ast, True)]
+        hashes = [a for a in atoms if a[0] == 'cmp' and a[2] == '==' and a[3].lstrip('u').strip('\'"') == '#' and a[1].endswith('[0]')]
+        digits = [a for a in atoms if a[0] in ('opaque', 'truthy') and a[1].endswith('.isdigit()') and a[2] is True]
+        if not hashes or not digits:
+            continue
+        found += 1
+        w = hashes[0][1][:-3]
+        lens = [a for a in atoms if a[0] == 'cmp' and 'len(%s)' % w in (a[1], a[3])]
+        ok, why = None, 'length condition of the node-line test not recognised'
+        if not lens:
+            ok, why = False, 'the test has no length condition: any word `#` + digits (e.g. `#1`, `#77777`) is taken for a node number'
+        elif len(lens) == 1:
+            a = lens[0]
+            if a[2] == '==' and '4' in (a[1], a[3]):
+                ok, why = True, '`len(%s) == 4`, `#`, three digits' % w
+            elif a[2] in ('<', '<=', '!='):
+                ok, why = False, 'the length condition `%s %s %s` admits other lengths than 4: words like `#1` are taken for node ' \
+                                 'numbers' % (a[1], a[2], a[3])
+            elif a[2] == '==':
+                ok, why = False, 'the length must be 4 (`#` and three digits), the test says `%s == %s`' % (a[1], a[3])
+        obs.append(Ob('R-NODELINE', f.fq, 'a line is a constituent line iff its word field is `#NNN`', ok, why,
+                      construct='nodeline:' + unparse(n.ast)[:60], line=n.lineno))
+    if not found:
+        raise Unrecognised('export reader: node-line test (`#` + digits) not found')
+    return obs, {}
